@@ -401,6 +401,10 @@ def rules(ctx: Ctx) -> None:
     cfg = fl.cfg
     vararg = fold.node.args.vararg.arg if fold.node.args.vararg else None
     loops = [c for c in cfg.nodes.values() if c.kind == "for" and vararg and u(c.ast.iter) == vararg]
+    if len(loops) > 1:
+        ctx.ob("R03.2", "fold:one-pass-over-the-statements", False, loc(fold.mod, loops[1].ast),
+               f"{len(loops)} loops run over the statement holders: a statement's own effects (compose, DROP / RENAME, tags, read x write edges) must be applied before the "
+               "next statement is merged - a pass that merges everything first lets DROP and RENAME act on nodes of later statements")
     if len(loops) != 1:
         raise AnalysisError(f"fold loop over the statement holders not found in {fold.qual} ({len(loops)} candidates)")
     L = loops[0]
